@@ -164,6 +164,10 @@ def rstring(rng, fancy=True):
             return rng.choice(["7", "12.5", "-3", "0", "1e3"])
         if c < .08:
             return rng.choice(["END", "on", "true", "Layer", "AUTO"])
+        if c < .11:
+            # near misses of other lexical classes: '#' + 4, 5 or 7 hex digits is no colour, a lone bracket no binding,
+            # a date / version / percentage no number
+            return rng.choice(["#BEEF", "#ABCDE", "#ABCDEF1", "#GG0000", "#AbC", "#aBcDeF", "2020-01-02", "1.2.3", "50%", "1e", "0x1F", ".5.", "a]", "[b", "%x", "x%"])
     n = rng.randint(1, 10)
     alphabet = SAFE + (" _-.:/%é𝄞,;=" if fancy else "")
     s = "".join(rng.choice(alphabet) for _ in range(n)).strip()
@@ -215,6 +219,12 @@ def value_for(rng, shape, key):
                 s = s[:hi]
             while len(s) < lo:
                 s += "x"
+            if hi is not None and hi <= 2 and rng.random() < .5:
+                # length-bounded values are where a case mapping that changes the length shows: characters whose lower() keeps
+                # the length but whose casefold() / upper() does not ("ß" -> "ss", "ŉ", ligatures), and plain non-ASCII letters
+                s = rng.choice(["ß", "ŉ", "ﬁ", "é", "Ω", "ǰ", "x", "|", " "])[:hi]
+                while len(s) < lo:
+                    s += "x"
         return s, [(s, "qstr")], "string"
     if k == "binding":
         a = rng.choice(["name", "Attr_1", "pop2020"])
